@@ -38,8 +38,10 @@ MANIFEST = {
 }
 PROPERTY_FILES = ['Properties/C16.v']
 REFUTED_FILES = ['Refuted/C16.v']
-MODEL_FILES = ['SF/Codec.v', 'SF/CodecStruct.v']
+MODEL_FILES = ['SF/CodecSpec.v', 'SF/Codec.v', 'SF/CodecStruct.v']
 IMPORTS = 'Require Import SF.Prelude SF.Value SF.Dtype SF.Codec SF.CodecStruct.'
+# the `s=` terms use only SF/CodecSpec.v (+ SF/Value.v), which does not depend on the regenerated Gen/Gen_c16.v
+IMPORTS_SPEC_ONLY = 'Require Import SF.Prelude SF.Value SF.Dtype SF.CodecSpec.'
 RULE = ('delimited: (a) exhaustive -- every string of length <= 2 (quick) / <= 3 (thorough) over {a,1,space,comma,quote,TAB,-,|} as one cell (first / middle / last column), '
         'one index label or one column label of a fixed 2x3 Frame, x delimiters comma, TAB, |; (b) random Frames: 1-4 rows, 1-4 columns of kinds bool/int64/float64/str/object(None,NaN), '
         'index depth 1-3 and columns depth 1-2 of str / int levels, every block layout, delimiter in {comma,TAB,|,;,space}, include_index / include_columns on or off, default or disabled '
@@ -481,7 +483,7 @@ def delimited_case(ctx, kind, spec, cfg, layout=None, extra=None):
     body = f'{in_dom} && obs_eqb (M_roundtrip c f) {obs}' if m_ok else in_dom
     return Case(kind, desc,
                 m=f'(let c := {c} in let f := {f} in {body})',
-                s=f'obs_eqb (S_roundtrip {_cfg(dict(cfg, apex=[]))} {f}) {obs}',
+                s=f'obs_eqb (S_same {f}) {obs}',
                 tags=tags, nontrivial=True)
 
 
@@ -863,6 +865,12 @@ def oracle_cases(ctx):
     from numpy.lib._iotools import LineSplitter
     from .. import core
     if ctx.scale != 1.0:
+        return
+    try:        # generate() failed closed: the model does not build, only the specification side is evaluated
+        with open(os.path.join(core.COQ, 'Gen', 'Gen_c16.v')) as fh:
+            if fh.read(12).startswith('(* BROKEN'):
+                return
+    except OSError:
         return
     quick = ctx.tier == 'quick'
     out = []
